@@ -5,6 +5,7 @@ from typing import List, Union, Dict
 
 from pddl_plus_parser.lisp_parsers.parsing_utils import (
     parse_untyped_predicate,
+    validate_predicate_usage,
     ASSIGNMENT_OPS,
     WHEN_OPERATOR,
     FORALL_OPERATOR,
@@ -44,6 +45,7 @@ class EffectsParser:
         conditional_effect_ast: List[Union[str, List[str]]],
         domain_constants: Dict[str, PDDLConstant],
         domain_functions: Dict[str, PDDLFunction],
+        domain_predicates: Dict[str, Predicate] = None,
     ) -> Union[Predicate, NumericalExpressionTree]:
         """
 
@@ -51,7 +53,15 @@ class EffectsParser:
         :param conditional_effect_ast: the AST representation of the conditional effect.
         :param domain_constants: the constants that exist in the domain.
         :param domain_functions: the functions that exist in the domain.
+        :param domain_predicates: the predicates that exist in the domain (used to validate the literals).
         """
+        if conditional_effect_ast[0] not in ASSIGNMENT_OPS and domain_predicates is not None:
+            validate_predicate_usage(
+                conditional_effect_ast[1]
+                if conditional_effect_ast[0] == NOT_OPERATOR
+                else conditional_effect_ast,
+                domain_predicates,
+            )
 
         if conditional_effect_ast[0] == NOT_OPERATOR:
             return parse_untyped_predicate(
@@ -74,6 +84,7 @@ class EffectsParser:
         action_signature: SignatureType,
         domain_functions: Dict[str, PDDLFunction],
         domain_constants: Dict[str, PDDLConstant],
+        domain_predicates: Dict[str, Predicate] = None,
     ) -> ConditionalEffect:
         """Parse all the conditional effects that are under the same when statement - can be composite.
 
@@ -87,7 +98,11 @@ class EffectsParser:
         if conditional_effect_ast[0] == "and":
             for effect in conditional_effect_ast[1:]:
                 result = self._parse_result(
-                    action_signature, effect, domain_constants, domain_functions
+                    action_signature,
+                    effect,
+                    domain_constants,
+                    domain_functions,
+                    domain_predicates,
                 )
                 if isinstance(result, Predicate):
                     discrete_effects.append(result)
@@ -100,6 +115,7 @@ class EffectsParser:
                 conditional_effect_ast,
                 domain_constants,
                 domain_functions,
+                domain_predicates,
             )
             if isinstance(result, Predicate):
                 discrete_effects.append(result)
@@ -129,6 +145,11 @@ class EffectsParser:
         :param domain_constants: the constants that exist in the domain.
         """
         self.logger.debug("Parsing conditional effect node.")
+        if conditional_effect_ast[0] != WHEN_OPERATOR:
+            raise SyntaxError(
+                f"Expected a conditional (when) effect but received - {conditional_effect_ast}"
+            )
+
         if len(conditional_effect_ast[1:]) != 2:
             raise SyntaxError(
                 f"Conditional effect scheme does not match schema! {conditional_effect_ast}"
@@ -156,6 +177,7 @@ class EffectsParser:
             action_signature,
             domain_functions,
             domain_constants,
+            domain_predicates,
         )
         return conditional_effect
 
@@ -238,6 +260,7 @@ class EffectsParser:
 
         for effect_node in effects_ast[1:]:
             if effect_node[0] in domain_predicates:
+                validate_predicate_usage(effect_node, domain_predicates)
                 new_action.discrete_effects.add(
                     parse_untyped_predicate(
                         effect_node,
@@ -249,6 +272,7 @@ class EffectsParser:
                 continue
 
             if effect_node[0] == NOT_OPERATOR:
+                validate_predicate_usage(effect_node[1], domain_predicates)
                 new_action.discrete_effects.add(
                     parse_untyped_predicate(
                         effect_node[1],
@@ -291,3 +315,5 @@ class EffectsParser:
                 )
                 new_action.numeric_effects.add(numerical_precondition)
                 continue
+
+            raise SyntaxError(f"Unknown or unsupported effect node: {effect_node}")
